@@ -512,6 +512,28 @@ func c05Feature(w *core.W, j int) {
 			}
 		}
 	}
+	// GPOS: decimal numbers over the whole globe in both angle fields (RFC 1712's prose gives the first
+	// field the +-90 range, its field name says longitude: text the library prints for either reading has
+	// to be read back), altitudes below sea level and far above
+	if l.Type == 27 {
+		for _, v := range [][3]string{{"151.2093", "-33.8688", "58"}, {"-179.9999", "89.9999", "-430.5"}, {"180", "-90", "0"}, {"-180.0", "90.0", "8848.86"},
+			{"90.0001", "179.9", "10000000"}, {"0", "0", "-0.5"}, {"-0.0001", "180", "35786000"}, {"116.8652", "-32.6882", "10.0"}, {"89", "-179", "-10994"}} {
+			r := c05Base(g, l)
+			r.Vals[0], r.Vals[1], r.Vals[2] = []byte(v[0]), []byte(v[1]), []byte(v[2])
+			r.Fixup()
+			c05Both(w, r, "/position/whole-globe")
+		}
+	}
+	// CAA: tags in upper and mixed case (RFC 8659 s.4.1: letters and digits, matched case-insensitively -
+	// the octets are kept as they are), of 1 and of 15 characters
+	if l.Type == 257 {
+		for _, tag := range []string{"Issue", "ISSUEWILD", "ioDef", "A", "z", "0", "Z9", "contactEmail", "ABCDEFGHIJKLMNO", "a1B2c3D4e5F6g7H", "issuemail"} {
+			r := c05Base(g, l)
+			r.Vals[1] = []byte(tag)
+			r.Fixup()
+			c05Both(w, r, "/Tag/letter-case")
+		}
+	}
 	// names of the maximum length (255 octets on the wire): every octet escaped as \DDD (the longest
 	// possible text, 1004 characters), every octet a plain letter, and one octet short of the limit
 	for _, mn := range c05MaxNames() {
